@@ -108,6 +108,9 @@ func c06R1(c *Ctx, id string) {
 			if bad == "" {
 				bad = offsetTable(c, off)
 			}
+			if bad == "" {
+				bad = chunkAdvance(w, ci)
+			}
 			c.check(fmt.Sprintf("%s:(*Tx).write:writeAt#%d", id, i+1), w, ci.Pos(),
 				"the writeAt offset derives only from p.Id(), pageSize and the chunk accumulator of the page whose bytes are written; p ranges over tx.pages", bad == "", bad)
 		}
@@ -421,6 +424,48 @@ func offsetTable(c *Ctx, off ssa.Value) string {
 		if g, ok := got.Int(); !ok || uint64(g) != row[0]*row[1] {
 			return fmt.Sprintf("offset for page id %d with page size %d evaluates to %s, want %d", row[0], row[1], got, row[0]*row[1])
 		}
+	}
+	return ""
+}
+
+// chunkAdvance: when the bytes written start at an offset INSIDE the page run that advances per
+// chunk (a loop-carried value), the file offset must advance in the same loop — otherwise every chunk
+// after the first lands at the start of the run.
+func chunkAdvance(fn *ssa.Function, ci ssa.CallInstruction) string {
+	loops := naturalLoops(fn)
+	var hdr *ssa.BasicBlock
+	size := 1 << 30
+	for h, body := range loops {
+		if body[ci.Block()] && len(body) < size {
+			hdr, size = h, len(body)
+		}
+	}
+	if hdr == nil {
+		return ""
+	}
+	carried := func(v ssa.Value) bool {
+		for _, l := range provenance(v, provOpts{ThroughCall: throughAll}) {
+			if ph, ok := l.V.(*ssa.Phi); ok && ph.Block() == hdr {
+				// a genuinely loop-carried phi: some edge comes from inside the loop and differs from the phi itself
+				for i, e := range ph.Edges {
+					if hdr.Dominates(ph.Block().Preds[i]) && e != ssa.Value(ph) {
+						return true
+					}
+				}
+			}
+		}
+		return false
+	}
+	bufAdvances := false
+	for _, l := range provenance(ci.Common().Args[0], provOpts{}) {
+		if l.Kind == "call" && l.Name == "common.UnsafeByteSlice" {
+			if carried(l.V.(*ssa.Call).Call.Args[1]) {
+				bufAdvances = true
+			}
+		}
+	}
+	if bufAdvances && !carried(ci.Common().Args[1]) {
+		return "the buffer position advances from chunk to chunk but the file offset does not: later chunks of a large page run overwrite its beginning"
 	}
 	return ""
 }
